@@ -71,7 +71,7 @@ CompileFails == IF Case.compile.ok THEN {} ELSE {"Compiles"}
 LibsOK(requests) ==
   \A i \in DOMAIN requests :
      \A cl \in DOMAIN CollClass :
-        (Sig.collType[cl] = requests[i][1] /\ LibOf("atlas", cl) # "" /\ ~(Case.declv = "replace_A" /\ cl = "A"))
+        (Sig.collType[cl] = requests[i][1] /\ LibOf("atlas", cl) # "" /\ ~(Case.declv \in ReplacesA /\ cl = "A"))
         => LibOf("atlas", cl) \in {Case.translate.libs[j] : j \in DOMAIN Case.translate.libs}
 LibFails == {}
 TokenFails(b) ==
